@@ -88,8 +88,19 @@ func runLimitsWorld(rc *RunCtx) *Outcome {
 	if limit == 0 {
 		effective = defaultMaxEvent
 	}
-	if entry == "Connection" && limit > 0 && ch.Chance(1, 3, "caller buffer") {
-		bufCap := []int{8, 64, limit / 2, limit, limit * 2}[ch.Intn(5, "buffer capacity")]
+	if entry == "Connection" && ch.Chance(1, 3, "caller buffer") {
+		bufCap := 0
+		if limit > 0 {
+			bufCap = []int{8, 64, limit / 2, limit, limit * 2}[ch.Intn(5, "buffer capacity")]
+		} else {
+			// a maximum that is not above cap(buf) means "scan in this buffer only, never allocate"
+			bufCap = []int{64, 1000, 4096, 100000, 200000}[ch.Intn(5, "buffer capacity without maximum")]
+			if ch.Chance(1, 3, "negative maximum") {
+				limit = -1
+			}
+			effective = bufCap
+			o.probe("caller buffer without a maximum")
+		}
 		if bufCap < 1 {
 			bufCap = 1
 		}
@@ -251,7 +262,7 @@ func init() {
 		Real:        []string{"sse.Read, ReadConfig.MaxEventSize", "Connection.Buffer + Connect (single attempt)", "internal/parser with bufio.Scanner"},
 		Stub:        []string{"counting io.Reader over an endless generator or a sized finite stream", "http.RoundTripper returning one scripted response"},
 		Assumptions: []string{"for Connection.Buffer the limit is the larger of maxSize and cap(buf), as bufio.Scanner.Buffer documents", "a slack of 8 bytes on the read bound (line terminators around the cut)"},
-		MustProbes:  []string{"endless stream stopped by the limit", "all events below the limit delivered", "oversized event rejected", "event within 2 bytes of the limit"},
+		MustProbes:  []string{"caller buffer without a maximum", "endless stream stopped by the limit", "all events below the limit delivered", "oversized event rejected", "event within 2 bytes of the limit"},
 		Run:         runLimitsWorld,
 	}, "C20")
 }
